@@ -251,6 +251,12 @@ def base_streams():
         tiny = dict(out)
         out.append(("tiny_frames_then_fields", tiny["tiny_HQ_v2_pic_frames"] + tiny["tiny_HQ_v2_pic_fields"]))
         out.append(("tiny_fields_then_frames_then_fields", tiny["tiny_LD_v1_pic_fields"] + tiny["tiny_LD_v1_pic_frames"] + tiny["tiny_LD_v1_pic_fields"]))
+        # sequences declaring DIFFERENT levels in one stream (level 1's value table is the any-value column the
+        # validator family installs; its ordering pattern is the repository's)
+        f1 = vb.Fmt(profile="HQ", version=2, level=1)
+        lvl1, _ = vb.assemble([dict(code=vb.PC_SH, payload=vb.sequence_header_payload(f1), first_in_sequence=True), dict(code=vb.PC_HQ_PIC, payload=vb.picture_payload(f1, "HQ", 0)), dict(code=vb.PC_EOS, payload=b"", npo="zero")])
+        out.append(("tiny_level0_then_level1", tiny["tiny_HQ_v2_pic_frames"] + lvl1))
+        out.append(("tiny_level1_then_level0", lvl1 + tiny["tiny_LD_v1_pic_frames"]))
         out += padded_slice_streams()
         out += custom_header_streams()
         out += huge_value_streams()
